@@ -33,7 +33,8 @@ static struct sgroup { int sig, scope, open, sole_excl; uint64_t seq; } sgroup[N
 static int nsgroup;
 static long spin_releases[SIMK_MAXT];
 /* a delivery whose handler has been entered but has not yet walked the process-wide tree */
-static struct { int sig, stage; uint64_t seq; } pend_deliv[SIMK_MAXT];
+static struct { int sig, stage; uint64_t seq; int snap_gen[MAXOBJ]; } pend_deliv[SIMK_MAXT];
+static const int *walk_filter;	/* restricts sig_walk to interests whose generation matches */
 static int pend_unreg[SIMK_MAXT];	/* interest obj + 1 whose unregister call has not yet entered its critical section */
 
 static void h_signal(void *ck) { generic_cb(ck, K_SIGNAL, 0, 0, 0); }
@@ -162,6 +163,8 @@ static int sig_walk(int sig, int scope, uint64_t seq)
 	for (i = 0; i < PL->nobj; i++) {
 		if (PL->obj[i].kind != K_SIGNAL || PL->obj[i].p[0] != sig || scope_of(i) != scope || !sig_in_tree(i))
 			continue;
+		if (walk_filter && (RO[i].xi[SX_INPROG] || walk_filter[i] != RO[i].gen + 1))
+			continue;
 		set[n_set++] = i;
 		if (PL->obj[i].p[1] & IV_SIGNAL_FLAG_EXCLUSIVE)
 			n_excl++;
@@ -198,6 +201,15 @@ static void obs_sig_deliver(int tid, int sig, int phase)
 	int rthread = sim2plan[tid];
 
 	if (phase == 1) {
+		if (pend_deliv[tid].stage == 1) {
+			/* The handler returned without ever walking the process-wide interests (it never took
+			 * the signal lock).  Whatever the implementation, an interest that stayed registered
+			 * from before the handler began until after it returned is owed this delivery. */
+			walk_filter = pend_deliv[tid].snap_gen;
+			sig_walk(pend_deliv[tid].sig, -1, pend_deliv[tid].seq);
+			walk_filter = NULL;
+			PROBE[PR_SIG_NOWALK]++;
+		}
 		pend_deliv[tid].stage = 0;
 		return;
 	}
@@ -211,6 +223,8 @@ static void obs_sig_deliver(int tid, int sig, int phase)
 		return;
 	}
 	++SEQ;
+	if (rthread < 0 || !RT[rthread].inited)
+		PROBE[PR_SIG_FOREIGN]++;
 	/* the library's handler first looks at the receiving thread's own interests ... */
 	if (rthread >= 0 && RT[rthread].inited && sig_walk(sig, rthread, SEQ) > 0) {
 		pend_deliv[tid].stage = 2;
@@ -220,6 +234,11 @@ static void obs_sig_deliver(int tid, int sig, int phase)
 	pend_deliv[tid].sig = sig;
 	pend_deliv[tid].seq = SEQ;
 	pend_deliv[tid].stage = 1;
+	{
+		int i;
+		for (i = 0; i < PL->nobj; i++)
+			pend_deliv[tid].snap_gen[i] = (PL->obj[i].kind == K_SIGNAL && RO[i].registered && !RO[i].xi[SX_INPROG]) ? RO[i].gen + 1 : 0;
+	}
 }
 
 static void obs_lock_event(int tid, void *addr, int acquired, int spin)
